@@ -98,12 +98,26 @@ func loadFindings() []finding {
 		}
 		if strings.HasPrefix(line, "key=\"") {
 			rest := line[len("key=\""):]
-			end := strings.Index(rest, "\" ")
+			end := -1
+			for i := 0; i+1 < len(rest); i++ {
+				if rest[i] == '\\' {
+					i++
+					continue
+				}
+				if rest[i] == '"' && rest[i+1] == ' ' {
+					end = i
+					break
+				}
+			}
 			if end < 0 {
 				end = strings.LastIndex(rest, "\"")
 			}
 			if end >= 0 {
 				fd.key = rest[:end]
+				// keys are written in Go-quoted form (as the check prints them)
+				if u, err := strconv.Unquote("\"" + fd.key + "\""); err == nil {
+					fd.key = u
+				}
 				line = strings.TrimSpace(rest[end+1:])
 			}
 		}
